@@ -399,8 +399,8 @@ impl<'a> Eng<'a> {
             db.sync_seqn(),
             self.loglen()
         );
-        // a panic on a POISONED handle is finding F21 (reported by the oracle below); the in-memory state of such a handle
-        // is beyond the model, the line is not compared
+        // a panic on a POISONED handle was finding F21 (repaired: `Nomt::rollback` tests the poison flag first; should it come back the
+        // oracle below reports it); the in-memory state of such a handle is beyond the model, the line is not compared
         let line = if res == "panic" && was_poisoned { "skip".to_string() } else { format!("{line} order=ok") };
         self.out.line(
             format!(
@@ -614,7 +614,7 @@ fn nomt_lock_free(dir: &str) -> bool {
     }
 }
 
-/// the step whose report fails (hook H14: only `session_finish` propagates the error)
+/// the step whose report fails (hook H15: only `session_finish` propagates the error)
 static FAIL_STEP: std::sync::Mutex<Option<&'static str>> = std::sync::Mutex::new(None);
 
 fn install_step_handler() {
@@ -979,7 +979,7 @@ fn sweep(e: &mut Eng<'_>, kind: &str, cap: usize) {
             e.observe(&touched);
         }
     }
-    // ---- rollback only: the `Session::finish` inside `Nomt::rollback` fails (injected through the step hook H14; a read error in
+    // ---- rollback only: the `Session::finish` inside `Nomt::rollback` fails (injected through the step hook H15; a read error in
     // reality): `Err` without poison after `truncate(n)` has popped the in-memory log.  The call itself is compared with the model;
     // what follows is recorded as an observation (a read failure is outside C14's quantifier): a commit, a reopen and rollback(1)
     if kind == "rollback" {
